@@ -187,6 +187,8 @@ LEVEL_TEXT['C11'] += ' Added (unit trapbi): the trap built-in asks the table for
 TECH['C11'] += ' + trap built-in Command::execute / set_action against a ghost log of the requests made to TrapSet::set_action'
 LEVEL_TEXT['C14'] += ' Added (unit heredoc): the descriptor a here-document is read from holds exactly the bytes of the body, rewound to the beginning, and is closed again when it cannot be filled.'
 TECH['C14'] += ' + here_doc::open_fd / fill_content over a ghost file map'
+LEVEL_TEXT['C08'] += ' Added (unit vfork): a process forked in the simulated system inherits umask, working directory, resource limits, descriptors, dispositions, blocked signals and IDs from its parent (finding F8, repaired).'
+TECH['C08'] += ' + Process::fork_from of the simulated system (field-by-field inheritance contract)'
 
 def main():
     checks = []
